@@ -1,6 +1,10 @@
 """Per-property metadata that MANIFEST.json is generated from."""
 
 ENGINES = [
+    {'name': 'explorer+tlc', 'path': 'mc/tlc.py',
+     'serves_properties': ['C15', 'C16'],
+     'kind_free_text': 'TLC (TLA+) explicit-state model checking of models/*.tla; the dumped labelled state graph is '
+                       'replayed against the implementation: all paths up to a length and all edges (mc/tlc.py)'},
     {'name': 'crawler', 'path': 'mc/crawl.py',
      'serves_properties': ['C01', 'C02', 'C03', 'C05', 'C06', 'C07', 'C08', 'C10', 'C12', 'C13', 'C14'],
      'kind_free_text': 'in-process world (mc/world.py: real Flask app, virtual clock, snapshots) + independent MPD '
@@ -202,5 +206,21 @@ CHECKS['C14'] = dict(
          'combinations + cancel/time_signal/null commands.',
     note='mc/scte35.py validated against the sample section of the SCTE-35 specification; live runs use $Time$ '
          'addressing so that every listed entry is a distinct stored segment.')
+
+CHECKS['C15'] = dict(
+    engine='explorer+tlc',
+    technique='explicit-state exploration (depth 1 from a restored snapshot) over route x method x role x harvested credentials; TLA+ model Csrf checked by TLC with all paths and all edges replayed against the implementation',
+    design_ref='DESIGN.md §7 C15',
+    text='Part 1: 27 mutating request templates x 4 roles x every CSRF token the role harvested by crawling GET routes '
+         '(and none, and the once-decoded spelling) x bearer on/off, plus a generic sweep over every rule of the '
+         'routing table (discovered at run time) x 5 methods x roles x tokens; after every request a digest of all '
+         'tables (Token excluded, User row-level) and of the blob tree is compared with the snapshot - a role may '
+         'change only what docs/users.md grants; templates that no role can use fail the run (non-vacuity). '
+         'Part 2: models/Csrf.tla (2-3 tokens, 2 cookies, 2 services, 3-6 tamper kinds) is checked by TLC '
+         '(invariant: accepted at most once) and its complete state graph replayed: all paths <= 4 (5) and all '
+         'edges on CsrfProtection.generate_token/check, all paths <= 3 (4) through PUT /key and PUT /streams/add '
+         'with two logged-in clients.',
+    note='flask_login is a stand-in (shims/); a correct use after a failed attempt may go either way in the model '
+         '(the implementation burns tokens on any attempt) and the replayer follows the branch taken.')
 
 NOT_BUILT = {}
